@@ -275,4 +275,89 @@ theorem endBlock_voting_custom {s s' : State} {stk : Staking} (h1 : inactiveSett
     exact ⟨sm, q, n, passes, burn, am.1, spre.2.2.trans a1.2.2.1, spre.2.1.trans a1.2.1, am.2.trans a1.2.2.2, hpm, hn, hr,
       by rw [spost.1]; exact hq', hend⟩
 
+/-- `finishTally` stores the final tally result it was given -/
+theorem finishTally_res {s s' : State} {pid : Nat} {p : Proposal} {passes burn : Bool} {res : Nat × Nat × Nat × Nat}
+    (h2 : settleShapeOk = true) (h3 : execInCacheCtx = true) (hb : s.gov = sumAmt s.deps)
+    (hp : findProp s.props pid = some p) (h : finishTally passes burn res p pid s = .ok s') :
+    ∃ q, findProp s'.props pid = some q ∧ q.tallyRes = res := by
+  have hpid : p.id = pid := findProp_id hp
+  unfold finishTally at h
+  simp only [refundRun_eq, burnRun_eq] at h
+  simp only [h2, Bool.not_true, Bool.false_and, Bool.false_eq_true, if_false] at h
+  simp only [if_true] at h
+  have settle : ∀ s1 : State,
+      (if (!(p.expedited && !passes)) = true then (if burn = true then burnDeposits pid s else refundDeposits pid s)
+        else Except.ok s) = .ok s1 → s1.props = s.props := by
+    intro s1 hx
+    split at hx
+    · split at hx
+      · exact (burnDeposits_spec hb hx).2.2.1
+      · exact (refundDeposits_spec hb hx).2.2.1
+    · cases hx; rfl
+  split at h
+  · cases h
+  · rename_i s1 hx
+    have e1 := settle s1 hx
+    split at h
+    · generalize hr' : runProposalMsgs p.msgs { s1 with active := removeQ (p.votingEnd, pid) s1.active } = rr at h
+      obtain ⟨s3, ok⟩ := rr
+      simp only at h
+      cases h
+      have e3' : s3 = (runProposalMsgs p.msgs { s1 with active := removeQ (p.votingEnd, pid) s1.active }).1 := by rw [hr']
+      have fr := runProposalMsgs_same h3 p.msgs { s1 with active := removeQ (p.votingEnd, pid) s1.active }
+      rw [← e3'] at fr
+      refine ⟨{ p with status := if ok = true then .passed else .failed, tallyRes := res }, ?_, rfl⟩
+      simp only [findProp_putProp, hpid, if_true]
+      rw [fr.1]; show (findProp s1.props pid).map _ = _; rw [e1, hp]; rfl
+    · split at h
+      · cases h
+        refine ⟨{ p with expedited := false, votingEnd := p.votingStart +
+            conversionPeriod { s1 with active := removeQ (p.votingEnd, pid) s1.active } p, tallyRes := res }, ?_, rfl⟩
+        simp only [findProp_putProp, hpid, if_true]
+        rw [e1, hp]; rfl
+      · cases h
+        refine ⟨{ p with status := .rejected, tallyRes := res }, ?_, rfl⟩
+        simp only [findProp_putProp, hpid, if_true]
+        rw [e1, hp]; rfl
+
+/-- the final tally result `tallyOne` stores: the per-option sums of `Tally` in whole tokens -/
+theorem tallyOne_res {s s' : State} {stk : Staking} {id : Nat} {p : Proposal} (h2 : settleShapeOk = true) (h3 : execInCacheCtx = true)
+    (ha : All s) (hp : findProp s.props id = some p) (hs' : tallyOne stk id s = .ok s') :
+    ∃ q n, findProp s'.props id = some q ∧ tallyNums (votesOf s.votes id) stk = some n ∧
+      q.tallyRes = (n.yes / DEC, n.abstain / DEC, n.no / DEC, n.veto / DEC) := by
+  unfold tallyOne at hs'
+  simp only [hp] at hs'
+  split at hs'
+  · cases hs'
+  · rename_i n hn
+    split at hs'
+    · cases hs'
+    · obtain ⟨q, hq, hr⟩ := finishTally_res (s := { s with votes := if tallyRemovesVotes then votesNot s.votes id else s.votes })
+        h2 h3 ha.inv.bal hp hs'
+      exact ⟨q, n, hq, hn, hr⟩
+
+/-- `endBlock_voting` with the stored result: the proposal tallied in this block carries, as its final tally result, the sums
+of the votes stored at the moment `sm`, in whole tokens -/
+theorem endBlock_voting_res {s s' : State} {stk : Staking} (h1 : inactiveSettleShapeOk = true) (h2 : settleShapeOk = true)
+    (h3 : execInCacheCtx = true) (h4 : tallyRemovesVotes = true) (ha : All s) (h : endBlock stk s = .ok s')
+    {pid : Nat} {p : Proposal} (hp : findProp s.props pid = some p) (hst : p.status = .voting) (hle : p.votingEnd ≤ s.time) :
+    ∃ sm q n, All sm ∧ sm.params = s.params ∧ sm.time = s.time ∧ findProp sm.props pid = some p ∧
+      tallyNums (votesOf sm.votes pid) stk = some n ∧ findProp s'.props pid = some q ∧
+      q.tallyRes = (n.yes / DEC, n.abstain / DEC, n.no / DEC, n.veto / DEC) := by
+  obtain ⟨s1, a1, t1, p1, i1, _, _, ac2⟩ := endBlock_split h1 h2 h3 h4 ha h pid
+  have hni : pid ∉ dueIds s.inactive s.time := by
+    intro hm
+    obtain ⟨t, ht, _⟩ := mem_dueIds_iff.mp hm
+    obtain ⟨p', hp', hs', _⟩ := ha.both.q.inactSound t pid ht
+    rw [hp] at hp'; cases hp'; rw [hst] at hs'; cases hs'
+  have sm1 := i1 hni
+  have hp1 : findProp s1.props pid = some p := by rw [sm1.1]; exact hp
+  have hdue : pid ∈ dueIds s1.active s1.time := by
+    rw [mem_dueIds_iff, t1]
+    exact ⟨p.votingEnd, a1.both.q.actComplete pid p hp1 hst, hle⟩
+  obtain ⟨sm, sm', hsm, hs1, hd, hsame⟩ := ac2 hdue
+  have hpm : findProp sm.props pid = some p := by rw [hs1.1]; exact hp1
+  obtain ⟨q, n, hq, hn, hr⟩ := tallyOne_res h2 h3 hsm hpm hd
+  exact ⟨sm, q, n, hsm, hs1.2.2.trans p1, hs1.2.1.trans t1, hpm, hn, by rw [hsame.1]; exact hq, hr⟩
+
 end FxVerif.Proofs.C15
